@@ -6,6 +6,9 @@ ALL = ["C%02d" % i for i in range(1, 21)]
 
 # id -> (level, technique, text, note, design_ref, engine)
 CHECKS = {
+ "C11": ("exploration", "bounded-exhaustive input enumeration (E4) of the real EncryptMessage/DecryptMessage",
+         "All 8x8 sender/receiver key agreements in both directions for 5 message types x 3 sizes, all 8x8x8 current/previous receiver combinations, and for one envelope per message kind every single-bit flip, every truncation, every short BlobInfo, field deletions and all 1- and 2-byte envelopes are decrypted by the real code; the oracle is the property's (round trip iff secret and key id match; mutated => error or the original plaintext; never a panic).",
+         "Cryptographic strength of X25519/AES-GCM is trusted; multi-byte random mutations are not claimed.", "6/C11", "E4"),
  "C20": ("exploration", "bounded-exhaustive input enumeration (E4) of the real encoder/decoder",
          "Every payload length that fits a ClientHello (thorough: all ~57k lengths x 2 prefixes x 2 contents; quick: all chunk-count boundaries), adversarial contents, foreign entries at every position and every malformed entry over a 3-letter alphabet are run through the real BreakIntoNextProtos/CombineFromNextProtos; exhaustive over lengths, which is what the splitter's behaviour depends on.",
          "Content is enumerated by pattern, not exhaustively; the ClientHello budget is computed (65535-512 bytes of ALPN list).", "6/C20", "E4"),
